@@ -1,12 +1,56 @@
 import Driver.Util
-/-! Driver section for C04 (stub until the model is online). -/
+import RxnModel.Model.Runner
+/-!
+Driver section for C04. Header `M C04 <nOps> <keyGroupCount>`.
+Ops `read <id>:<keyhex>:<cnt> …` and `barrier <id>` build the read order; every other op only stirs the schedule
+of the implementation (timer expiries, fetch completions, operator back-pressure, parked flushers) and is answered
+`-`: by `C04.per_operator_stream` / `C04.delivery_complete` the streams do not depend on the schedule.
+`end` prints, per operator, `Runner.project` of the read order — the definition the theorems are about.
+-/
 namespace Driver.C04
-open Rxn Driver
+open Rxn Driver Runner
 
-def step (st : Unit) : List String → Unit × String
-  | _ => (st, "bad-op")
+structure Rec where
+  id : Nat
+  key : Bytes
+  cnt : Nat
+
+def keyOfRec (r : Rec) : List KEv := (List.range r.cnt).map (fun j => { key := r.key, src := r.id, idx := j })
+
+structure DSt where
+  nOps : Nat
+  kgc : Nat
+  logical : List (Item Rec) := []
+
+def parseRec (s : String) : Rec :=
+  match s.splitOn ":" with
+  | [a, b, c] => { id := natOr a, key := hexOr b, cnt := natOr c }
+  | _ => { id := 0, key := [], cnt := 0 }
+
+def showEv : Ev → String
+  | .keyed e => s!"{e.src}.{e.idx}"
+  | .wm => "w"
+  | .barrier id => s!"b{id}"
+
+def cfg (st : DSt) : Cfg Rec :=
+  { nOps := st.nOps, route := fun k => KeySpace.rangeIndex st.kgc st.nOps k, keyOf := keyOfRec }
+
+def showStreams (st : DSt) : String :=
+  joinWith " " ((List.range st.nOps).map fun o =>
+    let evs := (project (cfg st) o st.logical).map showEv
+    s!"o{o}=" ++ (if evs.isEmpty then "-" else joinWith "," evs))
+
+def step (st : DSt) : List String → DSt × String
+  | "read" :: recs => ({ st with logical := st.logical ++ recs.map (fun r => Item.record (parseRec r)) }, "-")
+  | ["barrier", id] => ({ st with logical := st.logical ++ [Item.barrier (natOr id)] }, "-")
+  | ["end"] => (st, showStreams st)
+  | _ => (st, "-")
 
 def handle (lines : Array String) (i : Nat) (out : Array String) : Nat × Array String :=
-  runLines step () lines i out
+  let hdr := if i = 0 then [] else words (lines.getD (i - 1) "")
+  let st : DSt := match hdr with
+    | "M" :: "C04" :: n :: k :: _ => { nOps := natOr n, kgc := natOr k }
+    | _ => { nOps := 1, kgc := 1 }
+  runLines step st lines i out
 
 end Driver.C04
